@@ -112,8 +112,8 @@ class CtorGen:
         c = r.random()
         if c < 0.6:
             t = {"k": "const", "v": r.choice(["k1", "fixed", "v", "kind-a", "x"])}
-            if self.fmt == "openapi" and r.random() < 0.35:
-                t["enum1"] = True        # otherwise: the idiom cog's OpenAPI front-end recognises, pattern ^v$
+            if self.fmt == "openapi":
+                t["enum1"] = r.random() < 0.35      # False: the idiom cog's OpenAPI front-end recognises, pattern ^v$
             return t
         if c < 0.85:
             t = {"k": "const", "v": r.randint(0, 9)}
